@@ -71,7 +71,7 @@ def run(ctx):
             mols = c02.SYNTH_MOLS
         else:
             fam = c02.FAMILY[n]
-            mols = fam if thorough else fam[(ctx.seed + 1) % 3::3][:12] + [r'C/C=C\CCCCC/C=C\C'] * (fam is c02.GAS)
+            mols = fam if thorough else fam[(ctx.seed + 1) % 3::3][:12] + ([r'C/C=C\CCCCC/C=C\C'] + c02.KEY) * (fam is c02.GAS)
             mols = list(dict.fromkeys(mols)) + c02.OUTSIDE[:2]
             if fam is c02.GAS:
                 mols = mols + list(FUSED)
